@@ -272,7 +272,7 @@ class stDAG(AbstractSourceSinkGraph):
                         if visited[v] == 1:  # Only visit nodes marked as reachable (1)
                             stack.append(v)
                     elif (minFlow[u][v] == demand[(u, v)] 
-                        and demand[(u, v)] >= 1 
+                        and demand[(u, v)] > 0 
                         and visited[v] == 0):
                         antichain.append((u, v))
                 
